@@ -3,6 +3,8 @@ package main
 // A5 — census: who writes a field, who calls a function.
 
 import (
+	"go/constant"
+	"go/token"
 	"go/types"
 
 	"golang.org/x/tools/go/ssa"
@@ -242,11 +244,94 @@ func (w *World) Invokes(iface *types.Named, method string) []CallSite {
 
 // instrsOf iterates over all instructions of fn.
 func instrsOf(fn *ssa.Function, f func(ssa.Instruction)) {
+	dead := deadBlocks(fn)
 	for _, b := range fn.Blocks {
+		if dead[b] {
+			continue
+		}
 		for _, in := range b.Instrs {
 			f(in)
 		}
 	}
+}
+
+var deadBlocksCache = map[*ssa.Function]map[*ssa.BasicBlock]bool{}
+
+// deadBlocks: blocks that no execution reaches because every way into them goes through a
+// branch on a constant condition (a constant argument of an inlined helper selecting one arm of
+// its switch). go/ssa does not fold these.
+func deadBlocks(fn *ssa.Function) map[*ssa.BasicBlock]bool {
+	if d, ok := deadBlocksCache[fn]; ok {
+		return d
+	}
+	var constTruth func(v ssa.Value) (bool, bool)
+	constTruth = func(v ssa.Value) (bool, bool) {
+		switch x := v.(type) {
+		case *ssa.Const:
+			if x.Value != nil && x.Value.Kind() == constant.Bool {
+				return constant.BoolVal(x.Value), true
+			}
+		case *ssa.UnOp:
+			if x.Op == token.NOT {
+				if t, ok := constTruth(x.X); ok {
+					return !t, true
+				}
+			}
+		case *ssa.BinOp:
+			a, aok := x.X.(*ssa.Const)
+			b, bok := x.Y.(*ssa.Const)
+			if aok && bok && a.Value != nil && b.Value != nil && a.Value.Kind() == b.Value.Kind() {
+				switch x.Op {
+				case token.EQL, token.NEQ, token.LSS, token.LEQ, token.GTR, token.GEQ:
+					if a.Value.Kind() == constant.Bool && x.Op != token.EQL && x.Op != token.NEQ {
+						return false, false
+					}
+					return constant.Compare(a.Value, x.Op, b.Value), true
+				}
+			}
+		}
+		return false, false
+	}
+	live := map[*ssa.BasicBlock]bool{}
+	var work []*ssa.BasicBlock
+	if len(fn.Blocks) > 0 {
+		work = append(work, fn.Blocks[0])
+	}
+	if fn.Recover != nil {
+		work = append(work, fn.Recover)
+	}
+	any := false
+	for len(work) > 0 {
+		b := work[len(work)-1]
+		work = work[:len(work)-1]
+		if live[b] {
+			continue
+		}
+		live[b] = true
+		if ifi, ok := b.Instrs[len(b.Instrs)-1].(*ssa.If); ok && len(b.Succs) == 2 {
+			if t, known := constTruth(ifi.Cond); known {
+				any = true
+				if t {
+					work = append(work, b.Succs[0])
+				} else {
+					work = append(work, b.Succs[1])
+				}
+				continue
+			}
+		}
+		work = append(work, b.Succs...)
+	}
+	var dead map[*ssa.BasicBlock]bool
+	if any {
+		dead = map[*ssa.BasicBlock]bool{}
+		for _, b := range fn.Blocks {
+			if !live[b] {
+				dead[b] = true
+			}
+		}
+	}
+	deadBlocksCache[fn] = dead
+	return dead
 }
 
 // callsIn returns the call instructions in fn whose static callee is callee.
